@@ -1604,18 +1604,23 @@ def preprocess_arg(arg: ColExpr, table: Table, *, agg_is_window: bool = True) ->
                 "use in pydiverse.transform"
             )
 
-        if (
-            agg_is_window
-            and isinstance(expr, ColFn)
-            and "partition_by" not in expr.context_kwargs
-            and (expr.op.ftype in (Ftype.WINDOW, Ftype.AGGREGATE))
-        ):
-            expr.context_kwargs["partition_by"] = [table._cache.cols[uid] for uid in table._cache.partition_by]
-
         if isinstance(expr, ColName):
             return table[expr.name]
 
         new = copy.copy(expr)
+
+        # The grouping state is added to the copy, the caller's expression object must stay untouched (it may be
+        # used again under a different grouping state).
+        if (
+            agg_is_window
+            and isinstance(new, ColFn)
+            and "partition_by" not in new.context_kwargs
+            and (new.op.ftype in (Ftype.WINDOW, Ftype.AGGREGATE))
+        ):
+            new.context_kwargs = new.context_kwargs | {
+                "partition_by": [table._cache.cols[uid] for uid in table._cache.partition_by]
+            }
+
         new.map_children(
             functools.partial(
                 _preprocess_expr,
